@@ -622,11 +622,11 @@ pub struct FanoutCase {
     pub seed: u8,
 }
 
-fn fanout_strategy() -> BoxedStrategy<FanoutCase> {
+pub fn fanout_strategy() -> BoxedStrategy<FanoutCase> {
     (6u8..=16, any::<u16>(), 1u8..4, any::<u8>()).prop_map(|(peers, rank, records, seed)| FanoutCase { peers, rank, records, seed }).boxed()
 }
 
-fn check_fanout(case: &FanoutCase, ctx: &mut Ctx) {
+pub fn check_fanout(case: &FanoutCase, ctx: &mut Ctx) {
     use sha2::{Digest, Sha256};
     let mut cl = Cluster::new(&[360], None);
     let me: [u8; 32] = Sha256::digest(cl.nodes[0].peer.to_bytes()).into();
@@ -1066,5 +1066,6 @@ pub fn run(cfg: RunCfg) {
     );
     vh_core::fuzz_section!(rep, "cluster", case_strategy, check, "sec_node", "node", 2_500, 400, 12);
     vh_core::fuzz_section!(rep, "forced_fetch", forced_strategy, check_forced, "sec_node", "node", 3_000, 240, 8);
+    vh_core::fuzz_section!(rep, "advert_fanout", fanout_strategy, check_fanout, "sec_node", "node", 20_000, 200, 6);
     rep.finish();
 }
